@@ -12,6 +12,7 @@ No verdicts here, only fact-base queries:
 import copy
 
 from . import errdisc as E
+from .charset import Bits, Unsupported, int_type, ZERO
 from .flow import path_search
 
 CMP = ('<', '<=', '>', '>=', '==', '!=')
@@ -788,3 +789,25 @@ def inlined_getter_view(fb, fn):
                 w[key] = call[key]
         view.nodes[call['id']] = w
     return view
+
+
+# ------------------------------------------------------------------------------------------------ bit slices
+
+class UBits(Bits):
+    """charset.Bits refuses `x >> k` when the top bit of x is symbolic (it could be an arithmetic shift).  For an operand of
+    unsigned type the shift is logical whatever the top bit is; everything else is inherited."""
+
+    def _eval(self, nid):
+        fn = self.fn
+        n = fn.nodes.get(nid)
+        if n is not None and n.get('k') == 'binop' and n.get('op') == '>>' and 'cv' not in n and self.leaf(fn, n) is None:
+            lt = int_type(fn.nodes.get(n['lhs'], {}).get('t'), self.char_signed)
+            if lt is not None and not lt[0]:
+                a, b = self.eval(n['lhs']), self.eval(n['rhs'])
+                if not self.is_const(b):
+                    raise Unsupported('variable shift count')
+                kk = self.value(b)
+                if kk >= lt[1]:
+                    raise Unsupported('shift count not below the width of the operand')
+                return self._trunc(a[kk:] + (ZERO,) * kk, n)
+        return Bits._eval(self, nid)
